@@ -126,6 +126,15 @@ GhostStepForced(a, i, cfg) ==
             ELSE a
       [] r.op.op \in CompactOps -> AFilter(AHazard(a, StepHazard(i)), FilterEffects(i, cfg))
       [] r.op.op = "reopen" -> AReopen(a)
+      \* forced schedules (harness conc): one critical section of one thread per line
+      [] r.op.op = "cstep" ->
+            CASE r.op.step = "write" /\ r.op.p = "w" ->
+                    AWrite(a, {[k |-> r.op.arg.k, s |-> Rec[StIdx(i - 1)].st.seq, t |-> r.op.arg.t,
+                                v |-> r.op.arg.v]})
+              [] r.op.step = "rotate"   -> ARotate(a)
+              [] r.op.step = "register" -> AFlush(a)
+              [] r.op.step = "clear"    -> AClear(a, Rec[StIdx(i - 1)].st.seq)
+              [] OTHER -> a
       [] r.op.op = "clear"  -> AClear(a, r.info.s0)
       [] r.op.op = "droprange" ->
             LET b == [lo |-> r.op.lo, hi |-> r.op.hi] IN
@@ -421,6 +430,16 @@ CrashOk(r, before, after) ==
     /\ r.info.open = "ok"
     /\ ImageMatches(r, before) \/ ImageMatches(r, after)
 
+\* C06: after every critical section of a forced schedule: every published version is
+\* structurally sound and matches its tables' metadata, every needed file exists, and once
+\* all threads are at rest nothing is hidden
+ConcChecks(i, r) ==
+    LET st == Post(i) IN
+    /\ (PStructureSound(st) \/ Say("VIOL", "STRUCT", i, st.hist))
+    /\ (MetaOk(r.st)        \/ Say("VIOL", "META", i, r.st.tbls))
+    /\ (FilesLive(r.st)     \/ Say("VIOL", "FILES", i, r.st.ls))
+    /\ (r.op.step # "rest" \/ r.st.hidden = <<>> \/ Say("VIOL", "HIDDENREST", i, r.st.hidden))
+
 StateChecks(i, a, cfg) ==
     LET r == Rec[i] st == Post(i) IN
     /\ (FilesLive(r.st)         \/ Say("VIOL", "FILES", i, r.st.ls))
@@ -472,6 +491,7 @@ CheckLine(i, a, cfg, prev) ==
     /\ (ScanExtrasOk(r, a)      \/ Say("VIOL", "SCANX", i, r.obs.scan))
     \* predicates over the recorded state
     /\ IF ~WellFormed(r.st) THEN Say("VIOL", "MALFORMED", i, r.st.tbls)
+       ELSE IF r.op.op = "cstep" THEN ConcChecks(i, r)
        ELSE IF r.op.op # "reset" /\ ~PreWF(i) THEN TRUE
        ELSE StateChecks(i, a, cfg)
 
